@@ -141,13 +141,13 @@ def attr_c03(ev, names):
         return ev.get("mode") == "ed"
     if fam(ev, "a"):
         return "err" in names
-    return False
+    return fam(ev, "cond")
 
 
 PROPS["C03"] = dict(
     level_text='MC_ErrDec model-checks the ErrDecimal machine (sticky error, skip after error, flags grow, frame); recorded trap groups (one call under the empty and 32+ trap sets) are validated relationally by TraceRel; recorded ErrDecimal histories are validated step by step with the same EdStep operator.',
     mc=[("MC_ErrDec", None)],
-    drivers=[("traps", "TraceRel"), "errdec"],
+    drivers=[("traps", "TraceRel"), "errdec", "conditions"],
     attr=attr_c03,
     rule="each case is executed under the empty trap set and under 32 (thorough: sampled cases under all 4095) trap sets; "
          "TraceRel.tla checks the trap relation between the recorded outcomes; ErrDecimal edges/histories validated against ErrDec.tla",
